@@ -56,6 +56,11 @@ type c13Net struct {
 	// a scPeerError (the scheduler refused their message)
 	blamed map[p2p.ID]string
 
+	crashed    string // a production panic inside scheduler.handle / pcState.handle (the node process would die)
+	midRestart string // first restart probe that panicked: "height/cause/panic"
+	midCause   string
+	early      string // violation found while running (key|what)
+
 	schedStopped bool
 	finished     bool
 	notes        []string
@@ -87,6 +92,16 @@ func c13NewNet(chain *c13kit.Chain, st c13kit.Strategy) *c13Net {
 
 func (n *c13Net) close() { n.node.Close() }
 
+func c13Safely(f func()) (p string) {
+	defer func() {
+		if x := recover(); x != nil {
+			p = fmt.Sprint(x)
+		}
+	}()
+	f()
+	return ""
+}
+
 // ---- demux's routing, one event at a time ----
 
 func (n *c13Net) fromPeers(ev Event) {
@@ -106,7 +121,12 @@ func (n *c13Net) toSched(ev Event) {
 		return
 	}
 	n.steps++
-	out, err := n.r.scheduler.handle(ev)
+	var out Event
+	var err error
+	if p := c13Safely(func() { out, err = n.r.scheduler.handle(ev) }); p != "" {
+		n.crashed, n.schedStopped, n.finished = "scheduler: "+p, true, true
+		return
+	}
 	if err != nil {
 		n.notes = append(n.notes, "scheduler aborted: "+err.Error())
 		n.schedStopped = true
@@ -141,7 +161,12 @@ func (n *c13Net) toProc(ev Event) Event {
 		return noOp
 	}
 	n.steps++
-	out, err := n.r.processor.handle(ev)
+	var out Event
+	var err error
+	if p := c13Safely(func() { out, err = n.r.processor.handle(ev) }); p != "" {
+		n.crashed, n.schedStopped, n.finished = "processor: "+p, true, true
+		return noOp
+	}
 	if err != nil {
 		n.notes = append(n.notes, "processor aborted: "+err.Error())
 		n.finished = true
@@ -150,6 +175,12 @@ func (n *c13Net) toProc(ev Event) Event {
 	switch e := out.(type) {
 	case pcBlockProcessed:
 		n.r.setSyncHeight(e.height)
+		// crash point: the node is stopped right here and boots again on these stores
+		if n.midRestart == "" {
+			if p, h, cause := c13hand.Restart(n.chain, n.node); p != "" {
+				n.midRestart, n.midCause = fmt.Sprintf("restart with state height %d panics: %.200s", h, p), cause
+			}
+		}
 		n.toSched(e)
 	case pcBlockVerificationFailure:
 		n.blamed[e.firstPeerID] = fmt.Sprintf("verification of block %d failed (first)", e.height)
@@ -276,7 +307,18 @@ func c13Run(chain *c13kit.Chain, c c13Case) (res c13Result) {
 			idle = 0
 			continue
 		}
-		// nothing can happen: time passes, the prune ticker fires
+		// nothing can happen without time passing. A peer that was blamed must have been dropped by now, not only
+		// after the timeouts have cleaned up.
+		for _, p := range n.peers {
+			if why, ok := n.blamed[p.PID]; ok && !n.dropped(p) && n.early == "" {
+				lie := "nothing"
+				if p.Asked {
+					lie = p.Resp.Lie.String()
+				}
+				n.early = "blockchain/v2:peer-not-dropped-after:" + lie + "|" + fmt.Sprintf("peer for height %d (answered %q) was blamed (%s) and is still a block source when the node runs out of events and has to wait for timeouts", p.H, lie, why)
+			}
+		}
+		// time passes, the prune ticker fires
 		idle++
 		if idle > 3 {
 			stuck = true
@@ -294,6 +336,15 @@ func c13Run(chain *c13kit.Chain, c c13Case) (res c13Result) {
 		res.Key, res.What, res.Outcome = key, what, "violation"
 		return
 	}
+	if n.crashed != "" {
+		res.Key, res.What, res.Outcome = "blockchain/v2:node-panics-during-sync", n.crashed, "violation"
+		return
+	}
+	if n.early != "" {
+		kv := strings.SplitN(n.early, "|", 2)
+		res.Key, res.What, res.Outcome = kv[0], kv[1], "violation"
+		return
+	}
 	if hr.Called {
 		tipLies := []string{}
 		for _, p := range n.peers {
@@ -305,6 +356,10 @@ func c13Run(chain *c13kit.Chain, c c13Case) (res c13Result) {
 			res.Key, res.What, res.Outcome = key, what, "violation"
 			return
 		}
+	}
+	if n.midRestart != "" {
+		res.Key, res.What, res.Outcome = "blockchain/v2:restart-during-sync-panics:"+n.midCause, n.midRestart, "violation"
+		return
 	}
 	st, err := n.node.StateStore.Load()
 	if err != nil {
